@@ -20,6 +20,7 @@ import (
 	"sort"
 	"strings"
 	"syscall"
+	"time"
 
 	"github.com/restic/restic/internal/data"
 	"github.com/restic/restic/internal/global"
@@ -259,6 +260,10 @@ func c40Populate(rng *vrng, dir string, depth int, tag string) error {
 	if rng.chance(30) {
 		_ = os.Symlink("target", filepath.Join(dir, tag+"link"))
 	}
+	if rng.chance(40) {
+		// a second name for an existing regular file (same inode)
+		_ = os.Link(filepath.Join(dir, tag+"f0"), filepath.Join(dir, tag+"hard"))
+	}
 	if depth > 0 {
 		for i := 0; i < rng.intn(3); i++ {
 			if err := c40Populate(rng, filepath.Join(dir, fmt.Sprintf("%sd%d", tag, i)), depth-1, tag); err != nil {
@@ -365,6 +370,78 @@ func c40Edit(rng *vrng, src string, n int) string {
 	return "noop"
 }
 
+type c40SnInfo struct {
+	id     restic.ID
+	paths  []string
+	t      time.Time
+	parent *restic.ID
+}
+
+func c40ListSnaps(e *venv) ([]c40SnInfo, error) {
+	var out []c40SnInfo
+	err := c40WithRepo(e, func(ctx context.Context, repo *repository.Repository) error {
+		return data.ForAllSnapshots(ctx, repo, repo, nil, func(id restic.ID, sn *data.Snapshot, err error) error {
+			if err != nil {
+				return err
+			}
+			out = append(out, c40SnInfo{id, sn.Paths, sn.Time, sn.Parent})
+			return nil
+		})
+	})
+	sort.Slice(out, func(i, j int) bool { return out[i].t.Before(out[j].t) })
+	return out, err
+}
+
+// c40CopyTree copies src to dst keeping names, sizes and mtimes: per file either a hard link (same
+// inode), a plain copy (new inode), or a copy with different content of the same size.
+func c40CopyTree(rng *vrng, src, dst string) (stale int, err error) {
+	err = filepath.Walk(src, func(p string, fi os.FileInfo, err error) error {
+		if err != nil {
+			return err
+		}
+		rel, _ := filepath.Rel(src, p)
+		q := filepath.Join(dst, rel)
+		switch {
+		case fi.IsDir():
+			return os.MkdirAll(q, 0o755)
+		case fi.Mode().IsRegular():
+			switch rng.intn(4) {
+			case 0:
+				return os.Link(p, q)
+			case 1:
+				if fi.Size() > 0 {
+					stale++
+					if err := os.WriteFile(q, rng.bytes(int(fi.Size())), 0o644); err != nil {
+						return err
+					}
+					return os.Chtimes(q, fi.ModTime(), fi.ModTime())
+				}
+				fallthrough
+			default:
+				b, err := os.ReadFile(p)
+				if err != nil {
+					return err
+				}
+				if err := os.WriteFile(q, b, 0o644); err != nil {
+					return err
+				}
+				return os.Chtimes(q, fi.ModTime(), fi.ModTime())
+			}
+		case fi.Mode()&os.ModeSymlink != 0:
+			return os.Symlink("target", q)
+		}
+		return nil
+	})
+	return
+}
+
+func min2c40(a, b int) int {
+	if a < b {
+		return a
+	}
+	return b
+}
+
 func c40SnapshotCount(e *venv) int {
 	n := 0
 	for p := range e.repoFiles() {
@@ -404,6 +481,45 @@ func c40Case(c *vctx, name string, rng *vrng, variant int) error {
 	parentID, err := c40Backup(e, "src")
 	if err != nil {
 		return fmt.Errorf("C40 parent backup: %w", err)
+	}
+	// snapshots with other path sets: a superset {src, extra} (a valid parent for {src}) and {extra} alone
+	otherParent := variant%6 == 5
+	superset := variant%6 == 2
+	explicitParent := ""
+	if variant%2 == 1 {
+		explicitParent = parentID
+	}
+	if superset {
+		_ = os.MkdirAll(filepath.Join(e.base, "extra"), 0o755)
+		_ = os.WriteFile(filepath.Join(e.base, "extra", "x"), rng.bytes(20), 0o644)
+		if _, err := c40Backup(e, "src", "extra"); err != nil {
+			return fmt.Errorf("C40 superset backup: %w", err)
+		}
+		if rng.bool() {
+			if _, err := c40Backup(e, "extra"); err != nil {
+				return fmt.Errorf("C40 extra backup: %w", err)
+			}
+		}
+		explicitParent = ""
+	}
+	staleCopies := 0
+	if otherParent {
+		// the parent is a snapshot of ANOTHER directory with the same entry names: hard links, copies and
+		// same-size-same-mtime files with different content; it is only used when named explicitly
+		y := filepath.Join(e.base, "y")
+		var err error
+		if staleCopies, err = c40CopyTree(rng, src, filepath.Join(y, "src")); err != nil {
+			return err
+		}
+		if err := os.Chdir(y); err != nil {
+			return err
+		}
+		q, err := c40Backup(e, "src")
+		_ = os.Chdir(e.base)
+		if err != nil {
+			return fmt.Errorf("C40 other-dir backup: %w", err)
+		}
+		explicitParent = q
 	}
 	// edits
 	var edits []string
@@ -453,7 +569,14 @@ func c40Case(c *vctx, name string, rng *vrng, variant int) error {
 		ii = rng.bool()
 		ic = !ii || rng.bool()
 	}
-	args := []string{"--parent", parentID}
+	snapsBefore, err := c40ListSnaps(e)
+	if err != nil {
+		return err
+	}
+	var args []string
+	if explicitParent != "" {
+		args = append(args, "--parent", explicitParent)
+	}
 	if ii {
 		args = append(args, "--ignore-inode")
 	}
@@ -491,9 +614,59 @@ func c40Case(c *vctx, name string, rng *vrng, variant int) error {
 			}
 		}
 	}
-	parS, err := c40Snapshot(e, names, parentID, src, nil)
+	// the parent the incremental run really used (recorded in its snapshot)
+	snapsAfter, err := c40ListSnaps(e)
 	if err != nil {
 		return err
+	}
+	var usedParent *restic.ID
+	for _, sn := range snapsAfter {
+		if sn.id.String() == incrID {
+			usedParent = sn.parent
+		}
+	}
+	parTerm, parN := "None", 0
+	if usedParent != nil {
+		parS, err := c40Snapshot(e, names, usedParent.String(), src, nil)
+		if err != nil {
+			return err
+		}
+		parTerm, parN = "(Some "+parS.term+")", parS.n
+	}
+	// parent selection case
+	{
+		pathKey := map[string]int{}
+		pk := func(ps []string) string {
+			it := make([]string, len(ps))
+			for i, p := range ps {
+				if _, ok := pathKey[p]; !ok {
+					pathKey[p] = len(pathKey) + 1
+				}
+				it[i] = coqN(uint64(pathKey[p]))
+			}
+			return coqList(it)
+		}
+		idKey := map[restic.ID]int{}
+		var sl []string
+		for i, sn := range snapsBefore {
+			idKey[sn.id] = i + 1
+			sl = append(sl, coqTuple(coqN(uint64(i+1)), pk(sn.paths), coqN(uint64(i+1)))) // sorted by time: rank = position
+		}
+		expl := "None"
+		if explicitParent != "" {
+			for id, k := range idKey {
+				if id.String() == explicitParent {
+					expl = "(Some " + coqN(uint64(k)) + ")"
+				}
+			}
+		}
+		obs := "None"
+		if usedParent != nil {
+			obs = "(Some " + coqN(uint64(idKey[*usedParent])) + ")"
+		}
+		c.Case("parent-selection", len(snapsBefore) > 2, len(snapsBefore),
+			fmt.Sprintf("CParent %s %s false %s %s", coqList(sl), pk([]string{src}), expl, obs),
+			fmt.Sprintf("snapshots before=%d (superset=%v other-dir=%v) explicit=%v -> parent used: %s", len(snapsBefore), superset, otherParent, explicitParent != "", obs))
 	}
 	srcT, err := c40SourceTerm(names, src, "", contents)
 	if err != nil {
@@ -511,8 +684,14 @@ func c40Case(c *vctx, name string, rng *vrng, variant int) error {
 		idx = append(idx, coqN(uint64(k)))
 	}
 	fl := fmt.Sprintf("(flags_of_cli %s %s)", coqBool(ii), coqBool(ic))
-	term := fmt.Sprintf("CTree %s %s %s (Some %s) %s %s %s %s", fl, coqList(idx), srcT, parS.term, incrS.term, fullS.term, coqBool(incrS.root == fullS.root), coqBool(complete))
+	term := fmt.Sprintf("CTree %s %s %s %s %s %s %s %s", fl, coqList(idx), srcT, parTerm, incrS.term, fullS.term, coqBool(incrS.root == fullS.root), coqBool(complete))
 	kind := "tree"
+	if otherParent {
+		kind += fmt.Sprintf("-other-dir-parent-stale%d", min2c40(staleCopies, 1))
+	}
+	if superset {
+		kind += "-superset-parent"
+	}
 	if missing {
 		kind += "-missing-blobs"
 	}
@@ -525,9 +704,9 @@ func c40Case(c *vctx, name string, rng *vrng, variant int) error {
 		c.Hist("edit=" + ed)
 	}
 	c.Hist(fmt.Sprintf("ids-equal=%v", incrS.root == fullS.root))
-	c.Case(kind, len(edits) > 0 || missing, fullS.n+parS.n,
+	c.Case(kind, len(edits) > 0 || missing, fullS.n+parN,
 		term, fmt.Sprintf("entries parent=%d now=%d edits=%v missing-pack=%v ignore-inode=%v ignore-ctime=%v -> incremental tree == forced tree: %v",
-			parS.n, fullS.n, edits, missing, ii, ic, incrS.root == fullS.root))
+			parN, fullS.n, edits, missing, ii, ic, incrS.root == fullS.root))
 
 	// ---- skip-if-unchanged ----
 	if variant%2 == 0 {
